@@ -197,9 +197,12 @@ def parse(path, include_dir):
                     f0.stub = True
                     f0.from_unit = p[0]
                     f0.dropped_requires = dropped
-                    unknown = [d_ for d_ in dropped if d_ not in [c.id for c in f0.requires]]
+                    unknown = [d_ for d_ in dropped if d_ not in [c.id for c in f0.requires] + [c.id for c in f0.ensures]]
                     if unknown:
-                        raise SpecError('%s:%d @import: no requires clause %s in %s' % (path, i, unknown, addr))
+                        raise SpecError('%s:%d @import: no clause %s in %s' % (path, i, unknown, addr))
+                    # a dropped ensures is simply not used here (always sound); a dropped requires is an assumption
+                    f0.ensures = [c for c in f0.ensures if c.id not in dropped]
+                    f0.dropped_requires = [d_ for d_ in dropped if d_ in [c.id for c in f0.requires]]
                     f0.requires = [c for c in f0.requires if c.id not in dropped]
                     f0.loops = []
                     f0.inserts = []
